@@ -736,6 +736,8 @@ class DerivedModel:
         self.always_check = always_check
         self.checked = set()
         self.oracle_runs = 0
+        self.verified = set()      # (value, hidden state, global state) already compared with fresh
+        self.fresh_obs = {}        # (value, global state) -> observations of a fresh object
 
     # ---- menu ----
     def boxes(self, patt, shading):
@@ -834,16 +836,26 @@ class DerivedModel:
         obs["hash"] = hash(o)
         return obs
 
-    def oracle(self, live):
+    def oracle(self, live, glob=None):
+        """Compare every live object with a freshly constructed equal pattern.  An object's
+        answers are a function of (its value, its hidden state, the global state); a combination
+        that was already compared is not compared again (unless always_check)."""
         self.oracle_runs += 1
         out = []
         lib = self.lib
         for i, o in enumerate(live):
             try:
                 patt, sh = _value(o)
+                key = ((patt, sh), _hidden(o), glob)
+                if not self.always_check:
+                    if key in self.verified:
+                        continue
+                    self.verified.add(key)
                 fresh = lib.MeshPatt(lib.Perm(patt), list(sh))
                 mine = self.observe(o)
-                ref = self.observe(fresh)
+                ref = None if self.always_check else self.fresh_obs.get((key[0], glob))
+                if ref is None:
+                    ref = self.fresh_obs[(key[0], glob)] = self.observe(fresh)
                 eq = (o == fresh, fresh == o)
             except Exception as exc:  # noqa
                 out.append({"live object": i, "exception": repr(exc)})
@@ -895,13 +907,13 @@ class DerivedModel:
             except Exception as exc:  # noqa
                 if hi == last:
                     viols.append({"op": list(op), "exception": repr(exc)})
-        canon = (tuple(_value(o) for o in live), tuple(_hidden(o) for o in live),
-                 tuple(repr((name, v.cache_info().currsize if hasattr(v, "cache_info")
-                                   else X.norm_result(v))) for name, v in _containers(lib)))
+        glob = tuple(repr((name, v.cache_info().currsize if hasattr(v, "cache_info")
+                           else X.norm_result(v))) for name, v in _containers(lib))
+        canon = (tuple(_value(o) for o in live), tuple(_hidden(o) for o in live), glob)
         derive = bool(hist) and hist[-1][0] in DERIVE_OPS
         if self.always_check or derive or canon not in self.checked:
             self.checked.add(canon)
-            viols += self.oracle(live)
+            viols += self.oracle(live, glob)
         return canon, viols
 
 
@@ -1225,7 +1237,7 @@ def run(ctx, only=None):
         take_baseline(Lib())
         depth, max_derive, max_live = (3, 2, 3) if quick else (4, 2, 3)
         all_boxes = not quick
-        max_states = 20000 if quick else 60000
+        max_states = 4000 if quick else 60000
         dshards = [(st, depth, max_derive, max_live, all_boxes, max_states) for st in DERIVED_POOL]
         res = ctx.pmap(shard_derived, dshards)
         ctx.states = sum(r[0] for r in res)
